@@ -38,7 +38,11 @@ CM_H = 'src/tbb/concurrent_monitor.h'
 CQ_H = 'include/oneapi/tbb/concurrent_queue.h'
 
 MUTANTS = [
+    dict(name='c15-limiter-decrement-excess-not-bounded-by-the-puts-in-flight', prop='C15', clause='D1', edits=[('include/oneapi/tbb/flow_graph.h', '                    my_future_decrement += (size_t(delta) - my_count);\n                    trim_future_decrement();\n', '                    my_future_decrement += (size_t(delta) - my_count);\n')]),
+    dict(name='c15-limiter-rejected-put-leaves-a-surplus-decrement', prop='C15', clause='D1', edits=[('include/oneapi/tbb/flow_graph.h', '        if ( !rtask ) {  // try_put_task failed.\n            spin_mutex::scoped_lock lock(my_mutex);\n            --my_tries;\n            trim_future_decrement();\n', '        if ( !rtask ) {  // try_put_task failed.\n            spin_mutex::scoped_lock lock(my_mutex);\n            --my_tries;\n')]),
+    dict(name='c15-limiter-surplus-bounded-by-the-threshold-instead', prop='C15', clause='D1', edits=[('include/oneapi/tbb/flow_graph.h', '        if ( my_future_decrement > my_tries )\n            my_future_decrement = my_tries;\n', '        if ( my_future_decrement > my_threshold )\n            my_future_decrement = my_threshold;\n')]),
     dict(name='c15-limiter-no-recheck-after-future-decrement', prop='C15', clause='D1', edits=[(FG_H, """            --my_tries;
+            trim_future_decrement();
             // A decrement that arrived while this put was in flight may have made room again:
             // pull from the predecessors that were rejected in the meantime (as forward_task() does)
             if ( check_conditions() && is_graph_active(this->my_graph) ) {
@@ -49,6 +53,7 @@ MUTANTS = [
             }
         }
         return rtask;""", """            --my_tries;
+            trim_future_decrement();
         }
         return rtask;""")]),
     dict(name='c17-seed2-foreign-free-skips-object-start', prop='C17', clause='D1', edits=[(FE_CPP, """        FreeObject *objectToFree = block->findObjectToFree(object);
@@ -144,10 +149,12 @@ MUTANTS = [
     dict(name='c19-seed-waiter-leaves-on-uninitialized', prop='C19', clause='D1', edits=[(CO_H, "        } while (expected != state::done);", "        } while (expected > state::done);")]),
     dict(name='c15-seed-limiter-double-decrement', prop='C15', clause='D1', edits=[(FG_H, """                if( my_tries > 0 ) {
                     my_future_decrement += (size_t(delta) - my_count);
+                    trim_future_decrement();
                 }
                 my_count = 0;""", """                my_count = 0;
                 if( my_tries > 0 ) {
                     my_future_decrement += (size_t(delta) - my_count);
+                    trim_future_decrement();
                 }""")]),
     dict(name='c16-seed-execution-data-restored-conditionally', prop='C16', clause='D7', edits=[(AR_CPP, """            __TBB_ASSERT(td.my_inbox.is_idle_state(false), nullptr);
         }
@@ -1415,8 +1422,8 @@ MUTANTS = [
         }""", """        tbb::detail::d2::remove_predecessor(r, *this);""")]),
     # ---------------------------------------------------------------- C15
     dict(name='c15-limiter-missing-dec', prop='C15', clause='D1', edits=[
-        (FG_H, "        {\n            spin_mutex::scoped_lock lock(my_mutex);\n            --my_tries;\n            if (reserved) my_predecessors.try_release();",
-         "        {\n            spin_mutex::scoped_lock lock(my_mutex);\n            if (reserved) --my_tries;\n            if (reserved) my_predecessors.try_release();")]),
+        (FG_H, "        {\n            spin_mutex::scoped_lock lock(my_mutex);\n            --my_tries;\n            trim_future_decrement();\n            if (reserved) my_predecessors.try_release();",
+         "        {\n            spin_mutex::scoped_lock lock(my_mutex);\n            if (reserved) --my_tries;\n            trim_future_decrement();\n            if (reserved) my_predecessors.try_release();")]),
     dict(name='c15-limiter-count-unlocked', prop='C15', clause='D1', edits=[
         (FG_H, "        {\n            spin_mutex::scoped_lock lock(my_mutex);\n            if ( my_count + my_tries >= my_threshold )\n                return nullptr;\n            else\n                ++my_tries;\n        }",
          "        {\n            if ( my_count + my_tries >= my_threshold )\n                return nullptr;\n            spin_mutex::scoped_lock lock(my_mutex);\n            ++my_tries;\n        }")]),
@@ -1667,6 +1674,7 @@ MUTANTS += [
 ]
 
 BENIGN = [
+    dict(name='c15-b-limiter-clamp-written-inline', prop='C15', edits=[('include/oneapi/tbb/flow_graph.h', '        if ( !rtask ) {  // try_put_task failed.\n            spin_mutex::scoped_lock lock(my_mutex);\n            --my_tries;\n            trim_future_decrement();\n', '        if ( !rtask ) {  // try_put_task failed.\n            spin_mutex::scoped_lock lock(my_mutex);\n            --my_tries;\n            if ( my_future_decrement > my_tries ) my_future_decrement = my_tries;\n')]),
     dict(name='c02-b-mandatory-request-count-read-by-load', prop='C02', edits=[('src/tbb/thread_request_serializer.cpp', '    } else if (my_num_mandatory_requests > 0) {\n        my_is_mandatory_concurrency_enabled = true;\n        soft_limit = 1;\n    }\n', '    } else if (my_num_mandatory_requests.load(std::memory_order_relaxed) != 0) {\n        soft_limit = 1;\n        my_is_mandatory_concurrency_enabled = true;\n    }\n')]),
     dict(name='c04-b-ancestor-climb-explicit-root-exit', prop='C04', edits=[('src/tbb/task_group_context.cpp', '                    (c->*mptr_state).store(new_state, std::memory_order_relaxed);\n                break;\n            }\n        }\n', '                    (c->*mptr_state).store(new_state, std::memory_order_relaxed);\n                break;\n            }\n            if (ancestor->my_parent == nullptr)\n                break;     // the root is not the source: ctx does not descend from it\n        }\n')]),
     dict(name='c19-b-cas-reloads-the-root-and-the-link-is-renewed', prop='C19', edits=[('include/oneapi/tbb/enumerable_thread_specific.h', '            for(;;) {\n                a->next = r;\n                call_itt_notify(releasing,a);\n                array* new_r = r;\n                if( my_root.compare_exchange_strong(new_r, a) ) break;\n                call_itt_notify(acquired, new_r);\n                __TBB_ASSERT(new_r != nullptr, nullptr);\n                if( new_r->lg_size >= s ) {\n                    // Another thread inserted an equal or  bigger array, so our array is superfluous.\n                    deallocate(a);\n                    break;\n                }\n                r = new_r;\n            }\n', '            for(;;) {\n                a->next = r;\n                call_itt_notify(releasing,a);\n                if( my_root.compare_exchange_strong(r, a) ) break;\n                call_itt_notify(acquired, r);\n                __TBB_ASSERT(r != nullptr, nullptr);\n                if( r->lg_size >= s ) {\n                    // Another thread inserted an equal or  bigger array, so our array is superfluous.\n                    deallocate(a);\n                    break;\n                }\n            }\n')]),
